@@ -15,7 +15,7 @@ PU = 'vermouth/parser_utils.py'
 CONTEXT_OF = {'moleculetype': {'block'}, 'link': {'link', 'molmeta'}, 'modification': {'modification'}}
 
 
-from .common import method, raise_conditions, guarded_by_raise, has_atom
+from .common import method, raise_conditions, guarded_by_raise, has_atom, raise_condition_is, atom_text
 
 
 def run(ck):
@@ -255,6 +255,47 @@ def run(ck):
     inv = ck.need(method(ffd, '_invalid_out_of_link'), 'FFDirector._invalid_out_of_link vanished')
     ck.ob('MPT-reject', ff.loc(inv), len([s for s in inv.body if not isinstance(s, ast.Expr) or not isinstance(s.value, ast.Constant)]) == 1
           and isinstance(inv.body[-1], ast.Raise), 'sections registered as invalid outside links raise unconditionally', key='MPT-reject|invalid-out-of-link')
+    # exact rejection conditions (decision tables over named atoms)
+    def cls_prefix(k):
+        t = atom_text(k)
+        if k[0] == 'Is' and set(k[1:]) == {'None', 'order_from_attributes'}:
+            return 'ANONE'
+        if k[0] == 'Is' and set(k[1:]) == {'None', 'prefix_from_prefix'}:
+            return 'PNONE'
+        if k[0] == 'Eq' and set(k[1:]) == {'order_from_attributes', 'order_from_prefix'}:
+            return 'SAME'
+        return None
+    raise_condition_is(ck, ff, tap, lambda st, c: any(k[0] == 'Eq' and 'order_from' in atom_text(k) for k in flow.atoms_of(c)) or 'not consistent' in u(st) or
+                       any('order_from_attributes' in atom_text(k) for k in flow.atoms_of(c)),
+                       cls_prefix, 'not ANONE and not PNONE and not SAME', 'prefix/order contradiction (an explicit order, 0 included, against a prefix)',
+                       'DT-reject|prefix-order')
+
+    def cls_count(k):
+        if k[0] == 'Is' and set(k[1:]) == {'None', 'natoms'}:
+            return 'NNONE'
+        if k[0] == 'Eq' and set(k[1:]) == {'natoms', 'len(_get_atoms(tokens, natoms))'} or (k[0] == 'Eq' and set(k[1:]) == {'natoms', 'len(atoms)'}):
+            return 'EQ'
+        if k[0] == 'Gt' and 'delimiter' in atom_text(k) or (k[0] == 'Gt' and "tokens.count('--')" in atom_text(k)):
+            return 'MANYDELIM'
+        if k[0] in ('Eq', 'truth') and ('context_type' in atom_text(k) or atom_text(k) == 'truth delete'):
+            return 'LINKDEL' if k[0] == 'Eq' else 'DEL'
+        return None
+    raise_condition_is(ck, ff, bp, lambda st, c: 'were expected' in u(st), cls_count,
+                       'not (not LINKDEL and DEL) and not MANYDELIM and not NNONE and not EQ', 'wrong atom count for a fixed-arity interaction', 'DT-reject|atom-count')
+    raise_condition_is(ck, ff, ff.func('_parse_block_atom'), lambda st, c: any(k[0] == 'In' and k[2] == 'context' for k in flow.atoms_of(c)),
+                       lambda k: 'DUP' if (k[0] == 'In' and k[2] == 'context' and k[1] == 'name') else None, 'DUP', 'duplicate block atom', 'DT-reject|ff-duplicate-atom')
+    raise_condition_is(ck, pu, ps, lambda st, c: 'section is unknown' in u(st),
+                       lambda k: 'KNOWN' if (k[0] == 'In' and k[1] == 'tuple(self.section)' and k[2] == 'self.METH_DICT') else None, 'not KNOWN', 'unknown section', 'DT-reject|unknown-section')
+    # ITP: numeric references are resolved against the atoms of the current block only
+    can = [n for n in ast.walk(itpd) if isinstance(n, (ast.Assign, ast.AugAssign)) and any(u(t) == 'self.current_atom_names' for t in
+                                                                                         (n.targets if isinstance(n, ast.Assign) else [n.target]))]
+    muts = [c for c in ast.walk(itpd) if isinstance(c, ast.Call) and isinstance(c.func, ast.Attribute) and u(c.func.value) == 'self.current_atom_names'
+            and c.func.attr in ('append', 'extend', 'insert', 'pop', 'remove')]
+    ok = bool(can) and not muts and all(isinstance(n, ast.Assign) and u(n.value) in ('list(self.current_block.nodes)', '[]') for n in can) and \
+        any(u(n.value) == 'list(self.current_block.nodes)' for n in can)
+    ck.ob('PROV-itp-index-table', itp.loc(itpd), ok,
+          'the table that turns a 1-based atom index of an .itp interaction into an atom is always rebuilt from the atoms of the current block '
+          '({} assignment(s), {} in-place mutation(s))'.format(len(can), len(muts)), key='PROV-itp-index-table')
     # the "atoms" given to the arity test are the ones collected with that arity
     ga = calls_with_env(bp, lambda c: call_name(c) == '_get_atoms')
     ck.ob('MPT-reject', ff.loc(bp), len(ga) == 1 and 'natoms' in u(ga[0][0]), '_base_parser collects atoms with the section arity', key='MPT-reject|get-atoms')
